@@ -312,6 +312,9 @@ def answer(circ, q):
     if f[0] == "l":
         labs = [] if f[1] == "*" else f[1].split(".")
         return "l:" + emp(".".join(sorted(node_str(x) for x in circ.get_node_by_labels(labs))))
+    if f[0] == "e":
+        labs = [] if f[1] == "*" else f[1].split(".")
+        return "e:" + emp(".".join(sorted(node_str(x) for x in circ.get_node_exclude_labels(labs))))
     if f[0] == "m":
         return "m:" + metrics_str(circ)
     if f[0] == "n":
